@@ -393,13 +393,13 @@ fn eff<F: Field>(o: &Opnd<F>, nv: usize) -> Vec<F> {
     }
 }
 
-fn dense_ops<F: PrimeField>(rep: &mut Report, rng: &mut Rng, args: &Args, fname: &'static str) {
+fn dense_ops<F: PrimeField>(rep: &mut Report, rng: &mut Rng, args: &Args, fname: &'static str, shards: usize) {
     rep.config(&format!("{fname}/dense"));
     for c in [C_ZERO_REPR_IN, C_ZERO_REPR_OUT, "scalar = 0", "scalar = 1", "b = -a (sum identically zero)"] {
         rep.require(c);
     }
     let max_nv = args.pick(7, 10);
-    for _ in 0..args.pick(12_000, 120_000) {
+    for _ in 0..args.pick(12_000, 120_000) / shards {
         let nv = rng.gen_range(0..=max_nv);
         let a = gen_opnd::<F>(rng, nv);
         let mut b = gen_opnd::<F>(rng, nv);
@@ -644,13 +644,13 @@ fn sparse_relabel<F: PrimeField>(rep: &mut Report, rng: &mut Rng, args: &Args, f
     }
 }
 
-fn sparse_ops<F: PrimeField>(rep: &mut Report, rng: &mut Rng, args: &Args, fname: &'static str) {
+fn sparse_ops<F: PrimeField>(rep: &mut Report, rng: &mut Rng, args: &Args, fname: &'static str, shards: usize) {
     rep.config(&format!("{fname}/sparse"));
     for c in [C_ZERO_REPR_IN, C_ZERO_REPR_OUT, "scalar = 0", "scalar = 1", "b = -a (sum identically zero)"] {
         rep.require(c);
     }
     let max_nv = args.pick(7, 10);
-    for _ in 0..args.pick(12_000, 120_000) {
+    for _ in 0..args.pick(12_000, 120_000) / shards {
         let nv = rng.gen_range(0..=max_nv);
         let a = gen_opnd::<F>(rng, nv);
         let mut b = gen_opnd::<F>(rng, nv);
@@ -780,12 +780,12 @@ fn mono<F: Field>(e: &Exps, x: &[F]) -> F {
     e.iter().enumerate().fold(F::one(), |acc, (v, p)| acc * opow(x[v], *p as u64))
 }
 
-fn mv_terms<F: PrimeField>(rep: &mut Report, rng: &mut Rng, args: &Args, fname: &'static str) {
+fn mv_terms<F: PrimeField>(rep: &mut Report, rng: &mut Rng, args: &Args, fname: &'static str, shards: usize) {
     rep.config(&format!("{fname}/multivariate"));
     for c in ["term: repeated variable", "term: zero power", "term: unordered variables", "term: constant"] {
         rep.require(c);
     }
-    for _ in 0..args.pick(30_000, 300_000) {
+    for _ in 0..args.pick(30_000, 300_000) / shards {
         let nv = rng.gen_range(0..7);
         let (raw, rclass) = gen_raw_term(rng, nv);
         let e = exps_of(&raw, nv);
@@ -959,12 +959,12 @@ fn gen_mv<F: Field>(rng: &mut Rng, nv: usize) -> Vec<(F, Vec<(usize, usize)>)> {
     v
 }
 
-fn mv_poly<F: PrimeField>(rep: &mut Report, rng: &mut Rng, args: &Args, fname: &'static str) {
+fn mv_poly<F: PrimeField>(rep: &mut Report, rng: &mut Rng, args: &Args, fname: &'static str, shards: usize) {
     rep.config(&format!("{fname}/multivariate"));
     for c in ["term list: duplicate monomials", "term list: zero coefficient", "term list: duplicates cancel to zero", "term list: empty", "poly ops: q = -p", "poly ops: shared monomials"] {
         rep.require(c);
     }
-    for _ in 0..args.pick(20_000, 200_000) {
+    for _ in 0..args.pick(20_000, 200_000) / shards {
         let nv = rng.gen_range(0..6);
         let raw = gen_mv::<F>(rng, nv);
         let model = model_of(&raw.iter().map(|(c, t)| (*c, exps_of(t, nv))).collect::<Vec<_>>());
@@ -1073,10 +1073,13 @@ fn add_field<F: PrimeField>(v: &mut Vec<Item>, fname: &'static str) {
     v.push(Item::new(format!("sparse-eval/{fname}"), move |r, g, a| sparse_eval::<F>(r, g, a, fname)));
     v.push(Item::new(format!("dense-relabel-concat/{fname}"), move |r, g, a| dense_relabel_concat::<F>(r, g, a, fname)));
     v.push(Item::new(format!("sparse-relabel/{fname}"), move |r, g, a| sparse_relabel::<F>(r, g, a, fname)));
-    v.push(Item::new(format!("dense-ops/{fname}"), move |r, g, a| dense_ops::<F>(r, g, a, fname)));
-    v.push(Item::new(format!("sparse-ops/{fname}"), move |r, g, a| sparse_ops::<F>(r, g, a, fname)));
-    v.push(Item::new(format!("mv-terms/{fname}"), move |r, g, a| mv_terms::<F>(r, g, a, fname)));
-    v.push(Item::new(format!("mv-poly/{fname}"), move |r, g, a| mv_poly::<F>(r, g, a, fname)));
+    const SH: usize = 4;
+    for k in 0..SH {
+        v.push(Item::new(format!("dense-ops/{fname}/s{k}"), move |r, g, a| dense_ops::<F>(r, g, a, fname, SH)));
+        v.push(Item::new(format!("sparse-ops/{fname}/s{k}"), move |r, g, a| sparse_ops::<F>(r, g, a, fname, SH)));
+        v.push(Item::new(format!("mv-poly/{fname}/s{k}"), move |r, g, a| mv_poly::<F>(r, g, a, fname, SH)));
+    }
+    v.push(Item::new(format!("mv-terms/{fname}"), move |r, g, a| mv_terms::<F>(r, g, a, fname, 1)));
 }
 
 pub fn items(_args: &Args) -> Vec<Item> {
